@@ -48,10 +48,11 @@ type Contract struct {
 	Uses     []string // lemma procedures whose quantified closure is available as a premise
 	Decreases *Clause // termination measure (recursive functions / lemma procedures)
 	IsLemma  bool
-	Trigger  []Clause
+	Triggers [][]Clause
 	File     string
 	Line     int
 	Iface    bool // contract of an interface method
+	Ints     []string // uint64 variables / "res" that hold numbers, not bit patterns (mathematical Int in word-mode functions)
 	Pure     bool // pure lemma: no Go function; proved by induction on its measure
 	PureParams []SpecParam
 	Pkg      string
@@ -205,7 +206,7 @@ func loadProgram(repo string) (*Program, error) {
 	return p, nil
 }
 
-var kwRe = regexp.MustCompile(`^(spec|opaque|contract|iface|purelemma|requires|ensures|modifies|loop|mode|trusted|panics|use|decreases|lemma|trigger|end)\b`)
+var kwRe = regexp.MustCompile(`^(spec|opaque|contract|iface|purelemma|ints|requires|ensures|modifies|loop|mode|trusted|panics|use|decreases|lemma|trigger|end)\b`)
 
 func (p *Program) parseContractFile(path, short string) error {
 	fh, err := os.Open(path)
@@ -331,9 +332,26 @@ func (p *Program) parseContractFile(path, short string) error {
 			switch kw {
 			case "use":
 				cur.Uses = append(cur.Uses, strings.Fields(rest)...)
+			case "ints":
+				for _, n := range strings.Split(rest, ",") {
+					if n = strings.TrimSpace(n); n != "" {
+						cur.Ints = append(cur.Ints, n)
+					}
+				}
 			case "lemma":
 				cur.IsLemma = true
-			case "requires", "ensures", "decreases", "trigger":
+			case "trigger":
+				// one clause = one (multi-)pattern: comma-separated terms must all be present
+				var group []Clause
+				for _, part := range splitTopComma(rest) {
+					c, err := mkClause(part, rc.line)
+					if err != nil {
+						return err
+					}
+					group = append(group, c)
+				}
+				cur.Triggers = append(cur.Triggers, group)
+			case "requires", "ensures", "decreases":
 				c, err := mkClause(rest, rc.line)
 				if err != nil {
 					return err
@@ -345,8 +363,6 @@ func (p *Program) parseContractFile(path, short string) error {
 					cur.Ensures = append(cur.Ensures, c)
 				case "decreases":
 					cur.Decreases = &c
-				case "trigger":
-					cur.Trigger = append(cur.Trigger, c)
 				}
 			case "modifies":
 				cur.ModGiven = true
